@@ -24,6 +24,7 @@ var funcMap = template.FuncMap{
 	"int_array":           intArray,
 	"int_array_columns":   intArrayColumns,
 	"str_literal":         strconv.Quote,
+	"comment_text":        commentText,
 	"stringify":           stringify,
 	"title":               strings.Title,
 	"lower":               strings.ToLower,
@@ -106,6 +107,18 @@ func allCasts(g *grammar.Grammar) []*CastInfo {
 		}
 	}
 	return ret
+}
+
+// commentText makes a string safe for a single-line comment: text with non-printable characters
+// (NUL, newlines, invalid UTF-8) is shown in its quoted form.
+func commentText(s string) string {
+	for _, r := range s {
+		if !unicode.IsPrint(r) || r == utf8.RuneError {
+			q := strconv.Quote(s)
+			return q[1 : len(q)-1]
+		}
+	}
+	return s
 }
 
 func stringify(s string) string {
